@@ -3,6 +3,7 @@ package props
 import (
 	"encoding/json"
 	"fmt"
+	"math"
 	"math/rand"
 	"net/url"
 	"os"
@@ -223,7 +224,75 @@ type c20Ev struct {
 var c20Vals = []interface{}{"s", "t", 1.0, 2.5, true, nil, "1", "2.5", "true", "<nil>", "1", 1.0, "true", true, // same spelling, different JSON type
 	map[string]interface{}{"rid": "svc.r.x"}, map[string]interface{}{"data": []interface{}{1.0, "a"}}}
 
+// c20Unenc stands in the recorded event for a value encoding/json cannot encode (NaN):
+// an event carrying it cannot be applied.
+const c20Unenc = "<unencodable>"
+
+func c20Real(v interface{}) interface{} {
+	switch t := v.(type) {
+	case string:
+		if t == c20Unenc {
+			return math.NaN()
+		}
+	case map[string]interface{}:
+		m := make(map[string]interface{}, len(t))
+		for k, x := range t {
+			m[k] = c20Real(x)
+		}
+		return m
+	case []interface{}:
+		l := make([]interface{}, len(t))
+		for i, x := range t {
+			l[i] = c20Real(x)
+		}
+		return l
+	}
+	return v
+}
+
+func c20HasUnenc(v interface{}) bool {
+	switch t := v.(type) {
+	case string:
+		return t == c20Unenc
+	case map[string]interface{}:
+		for _, x := range t {
+			if c20HasUnenc(x) {
+				return true
+			}
+		}
+	case []interface{}:
+		for _, x := range t {
+			if c20HasUnenc(x) {
+				return true
+			}
+		}
+	}
+	return false
+}
+
 func c20RandEvent(r *rand.Rand, cfg c20Cfg) c20Ev {
+	ev := c20RandEvent0(r, cfg)
+	if r.Intn(12) != 0 {
+		return ev
+	}
+	switch ev.Kind {
+	case "change":
+		if m := ev.Vals.(map[string]interface{}); !cfg.Index {
+			m[[]string{"a", "b", "c"}[r.Intn(3)]] = c20Unenc
+		}
+	case "add":
+		ev.Value = c20Unenc
+	case "create":
+		if m, ok := ev.Value.(map[string]interface{}); ok {
+			m["a"] = c20Unenc
+		} else if l, ok := ev.Value.([]interface{}); ok {
+			ev.Value = append(l, c20Unenc)
+		}
+	}
+	return ev
+}
+
+func c20RandEvent0(r *rand.Rand, cfg c20Cfg) c20Ev {
 	if cfg.Type == "model" {
 		switch r.Intn(8) {
 		case 0:
@@ -286,6 +355,9 @@ func c20Fold(cfg c20Cfg, def, state interface{}, ev c20Ev) (next interface{}, ap
 	base := state
 	if base == nil && def != nil {
 		base = def
+	}
+	if c20HasUnenc(ev.Vals) || c20HasUnenc(ev.Value) {
+		return state, false, false, nil, nil
 	}
 	switch ev.Kind {
 	case "change":
@@ -530,13 +602,13 @@ func c20Sequence(c *core.Ctx, cfg c20Cfg, dir string, r *rand.Rand, seq int) boo
 			pn = try(func() {
 				switch ev.Kind {
 				case "change":
-					rs.ChangeEvent(ev.Vals.(map[string]interface{}))
+					rs.ChangeEvent(c20Real(ev.Vals).(map[string]interface{}))
 				case "add":
-					rs.AddEvent(ev.Value, ev.Idx)
+					rs.AddEvent(c20Real(ev.Value), ev.Idx)
 				case "remove":
 					rs.RemoveEvent(ev.Idx)
 				case "create":
-					rs.CreateEvent(ev.Value)
+					rs.CreateEvent(c20Real(ev.Value))
 				case "delete":
 					rs.DeleteEvent()
 				}
